@@ -500,3 +500,72 @@ def isolation(ctx):
     else:
         ctx.inconclusive.append("vacuity: nothing rendered")
     ctx.sample({"paths": E.paths})
+
+
+# ---------------------------------------------------------------------------------------
+# O6: a documentation line that follows a non-entity statement (USE, IMPLICIT NONE, an executable statement) belongs to the enclosing
+# program unit and is kept verbatim, whatever it contains (quotes, apostrophes, call-like text, upper case)
+# ---------------------------------------------------------------------------------------
+QDOCS = [' plain words only', ' say "hi there" twice', " it's the unit's own text", ' call greet("hello", \'world\') example',
+         " Mixed CASE 'Text' stays", ' a "b" c \'d\' e']
+NONENT = [("implicit none", "module"), ("use iso_c_binding", "module"), ("IMPLICIT NONE", "module")]
+
+
+def _q_prog(stmt, doc):
+    return ["module m", stmt, choice.apply(lambda d: "  !!" + d, doc) if isinstance(doc, CV) else "  !!" + doc, "integer :: first", "contains",
+            "subroutine s()", "x = 1", choice.apply(lambda d: "  !!" + d + " too", doc) if isinstance(doc, CV) else "  !!" + doc + " too",
+            "end subroutine s", "end module m"]
+
+
+def _q_observe(f):
+    m = f.modules[0]
+    return [str(x) for x in m.doc_list if str(x).strip()], [str(x) for x in m.subroutines[0].doc_list if str(x).strip()], \
+        [str(x) for x in m.variables[0].doc_list if str(x).strip()]
+
+
+def replay_q(w):
+    f = parserh.parse_source_text("\n".join(_q_prog(w["stmt"], w["doc"])) + "\n")
+    got = _q_observe(f)
+    want = ([w["doc"]], [w["doc"] + " too"], [])
+    return (got[0], got[1], got[2]) != want, {"program": _q_prog(w["stmt"], w["doc"]), "ford (module, subroutine, variable) docs": got, "expected": want}
+
+
+@obligation("C03", "O6.docs-after-non-entity-statements", engine="SX(CV)", timeout=900)
+def docs_after_statements(ctx):
+    """a doc line after USE / IMPLICIT NONE in a module and after an executable statement in a procedure, its text symbolic (quotes,
+    apostrophes, call-like text): it documents the enclosing unit, verbatim, and not the following declaration"""
+    import ford.sourceform as sf
+
+    ctx.encode_fn(sf.FortranContainer.__init__)
+    ctx.bounds.update({"doc texts": len(QDOCS), "statements": len(NONENT)})
+
+    def h(E):
+        st = CV.choice(E, "stmt", NONENT)
+        d = CV.choice(E, "doc", QDOCS)
+        E.e.snapshot = lambda m: {"stmt": choice.value_in_model(m, st)[0], "doc": choice.value_in_model(m, d)}
+        f = parserh.parse_source_lines(_q_prog(st[0], d), docmark="!", predocmark=">", docmark_alt="*", predocmark_alt="|")
+        md_, sd_, vd_ = _q_observe_cv(f)
+        E.reachable("parsed")
+        E.require(choice.apply(lambda g, w_: list(g) == [w_], md_, d), "module documentation after a non-entity statement is altered or lost")
+        E.require(choice.apply(lambda g, w_: list(g) == [w_ + " too"], sd_, d), "procedure documentation after an executable statement is altered or lost")
+        E.require(choice.apply(lambda g: list(g) == [], vd_), "the documentation went to the following declaration")
+
+    E = sym.Engine(ctx, max_paths=5000, incremental=True)
+    found = E.explore(h)
+    seen = set()
+    for (label, m, pc), snap in zip(found, E.snapshots):
+        if label in seen or not snap:
+            continue
+        seen.add(label)
+        ctx.report(label, snap, replay_q)
+    if E.reached.get("parsed"):
+        ctx.twins += 1
+    else:
+        ctx.inconclusive.append("vacuity: nothing parsed")
+    ctx.sample({"paths": E.paths})
+
+
+def _q_observe_cv(f):
+    m = f.modules[0]
+    nonblank = lambda lst: choice.apply(lambda *x: [str(y) for y in x if str(y).strip()], *lst) if lst else []
+    return nonblank(list(m.doc_list)), nonblank(list(m.subroutines[0].doc_list)), nonblank(list(m.variables[0].doc_list))
